@@ -173,7 +173,7 @@ static void do_op(World& w, int op)
     struct DeviceIdentifier id; memset(&id, 0, sizeof id);
     id.kind = w.kind == 0 ? DeviceKind_Camera : DeviceKind_Storage; id.device_id = (uint8_t)w.kind;
     static struct CameraProperties cp; static struct StorageProperties sp; static struct ImageShape shape; static struct ImageInfo info;
-    static union { struct VideoFrame f; uint8_t raw[128]; } frame;
+    static union { struct VideoFrame f; uint8_t raw[sizeof(struct VideoFrame) + 64]; } frame;
     const bool is_open = w.kind == 0 ? w.cam != nullptr : w.sto != nullptr;
     DevRec& rec = w.kind == 0 ? CAMR : STOR;
     size_t before = g_menu.size();
@@ -273,8 +273,8 @@ static void do_op(World& w, int op)
             case O_STOP: storage_stop(s); if (reached()) w.model = (enum DeviceState)last_ans(); break;
             case O_APPEND0: storage_append(s, &frame.f, &frame.f); break;
             case O_APPEND1: {
-                memset(&frame, 0, sizeof frame); frame.f.bytes_of_frame = 104;
-                storage_append(s, &frame.f, (const struct VideoFrame*)(frame.raw + 104));
+                memset(&frame, 0, sizeof frame); frame.f.bytes_of_frame = sizeof(struct VideoFrame) + 8;
+                storage_append(s, &frame.f, (const struct VideoFrame*)(frame.raw + sizeof(struct VideoFrame) + 8));
                 if (reached()) w.model = (enum DeviceState)last_ans();
                 break;
             }
